@@ -110,6 +110,8 @@ def rules(ctx):
         "end_depot": [call(T("last_node")), call(N("get_depot_idx")), call(N("get_depot"))],
     })
     successor_rules(ctx)
+    from . import formulas as _fm
+    _fm.cluster_loops(ctx, "R4")      # the cycles partition the type's vehicles: the clustering loses none
 
 
 def successor_rules(ctx, rid="R4"):
